@@ -552,7 +552,7 @@ def run_case(prop, name, hint, confkw, tier, src, props=None):
         out = CaseOut(name, confkw)
         try:
             g = generate(hint, confkw)
-            if g.error is not None and type(g.error).__name__.startswith('_'):
+            if g.error is not None and type(g.error).__name__.startswith('_') and prop in ('C01', 'C03', 'C12'):
                 # not "beartype rejects this hint" but an internal (underscore-prefixed) error such
                 # as generated code that does not compile: every object, conforming ones included,
                 # is then answered with a non-violation exception
